@@ -165,24 +165,36 @@ def h_op(x, bk, op, n):
         be.close()
 
 
+def same_id(a, b):
+    """syntactic identity of two ids (concrete ints, or the same solver term)"""
+    a, b = C.zv(a), C.zv(b)
+    if isinstance(a, int) and isinstance(b, int):
+        return a == b
+    if hasattr(a, "eq") and hasattr(b, "eq"):
+        return a.eq(b)
+    return False
+
+
 HOPS = ["insert", "bulk2", "replace", "replace_last", "delete", "upsert1"]
 
 
-def h_history(x, bk, L):
+def h_history(x, bk, L, pre=0, hops=None):
     """whole histories from the empty store: L operations chosen by forking, event contents symbolic;
     after every step the bucket equals the reference list (cross-check that the inductive pre-states
     are not too strong, and of id allocation across deletes)"""
     be = ST.backend(bk)
-    ds = be.make(x, {"A": [], "B": []})
+    P = ST.sym_rows(x, "p", pre)
+    ST.distinct(x, [r.id for r in P])
+    ds = be.make(x, {"A": P, "B": []})
     try:
         b = ds["A"]
-        model = []  # list of Row, ids as assigned by the store
+        model = list(P)  # list of Row, ids as assigned by the store
         ever = []  # every id ever handed out together with the liveness at that time
         obl = []
         trace = []
         for step in range(L):
             live = len(model)
-            ops = [o for o in HOPS if live or o in ("insert", "bulk2")]
+            ops = [o for o in (hops or HOPS) if live or o in ("insert", "bulk2", "bulk1")]
             op = ops[x.choice("op%d" % step, len(ops))]
             new = ST.sym_rows(x, "s%d" % step, 2, ids=False)
             if op == "insert":
@@ -193,11 +205,19 @@ def h_history(x, bk, L):
             elif op == "bulk2":
                 b.insert([ST.event_of_row(x, new[0]), ST.event_of_row(x, new[1])])
                 rows = be.table_rows(ds).get("A", [])
-                fresh = [q for q in rows if not any((isinstance(q.id, int) and isinstance(r.id, int) and q.id == r.id) for r in model)]
+                fresh = [q for q in rows if not any(same_id(q.id, r.id) for r in model)]
                 obl.append(("bulk-adds-two-rows-step%d" % step, len(rows) == live + 2 and len(fresh) == 2))
                 if len(fresh) == 2:
                     obl.append(("bulk-contents-step%d" % step, Or(And(fresh[0].same_content(new[0]), fresh[1].same_content(new[1])), And(fresh[0].same_content(new[1]), fresh[1].same_content(new[0])))))
                     model += [Row(fresh[0].id, fresh[0].start, fresh[0].dur, fresh[0].tag), Row(fresh[1].id, fresh[1].start, fresh[1].dur, fresh[1].tag)]
+            elif op == "bulk1":
+                # a list of one event without id: the bulk code path, one new row
+                b.insert([ST.event_of_row(x, new[0])])
+                rows = be.table_rows(ds).get("A", [])
+                fresh = [q for q in rows if not any(same_id(q.id, r.id) for r in model)]
+                obl.append(("bulk-adds-one-row-step%d" % step, len(rows) == live + 1 and len(fresh) == 1 and fresh[0].same_content(new[0])))
+                if len(fresh) == 1:
+                    model.append(Row(fresh[0].id, fresh[0].start, fresh[0].dur, fresh[0].tag))
             elif op == "replace":
                 tgt = model[x.choice("t%d" % step, live)]
                 b.replace(x.wrap(tgt.id), ST.event_of_row(x, new[0]))
@@ -212,7 +232,7 @@ def h_history(x, bk, L):
                 obl.append(("limit-1-read-nonempty-step%d" % step, lr is not None))
                 if lr is not None:
                     b.replace_last(ST.event_of_row(x, new[0]))
-                    hit = [r for r in model if isinstance(r.id, int) and isinstance(lr.id, int) and r.id == lr.id]
+                    hit = [r for r in model if same_id(r.id, lr.id)]
                     obl.append(("limit-1-read-is-a-live-newest-event-step%d" % step, len(hit) == 1 and And([lr.start >= r.start for r in model])))
                     if len(hit) == 1:
                         model[model.index(hit[0])] = Row(hit[0].id, new[0].start, new[0].dur, new[0].tag)
@@ -250,6 +270,13 @@ def harnesses(tier):
             continue  # 15 000 paths: thorough tier only
         for L in ([2] if tier == "quick" else ([2, 3] if bk != "peewee" else [2])):
             hs.append((Harness(PROP, "%s-history-L%d" % (bk, L), h_history, dict(bk=bk, L=L), "%s backend: every history of %d operations from the empty store (operation and target chosen by forking, contents symbolic)" % (bk, L), split_depth=8), 3600))
+    # state kept inside the store object between calls (caches, counters): sequences of the writes that take
+    # no target id, on one store object, from a loaded bucket
+    for bk in bks:
+        for L in ([3] if tier == "quick" or bk == "peewee" else [3, 4]):
+            hops = ["bulk1", "replace_last"] if (bk == "peewee" and tier == "quick") else ["insert", "bulk1", "replace_last"]
+            hs.append((Harness(PROP, "%s-history-L%d-from-1-event-untargeted-writes" % (bk, L), h_history, dict(bk=bk, L=L, pre=1, hops=hops),
+                               "%s backend: every sequence of %d operations out of %s (bulk1 = a list of one new event) on one store object, from a bucket already holding one event" % (bk, L, " / ".join(hops)), split_depth=8), 3600))
     return hs
 
 
@@ -261,6 +288,7 @@ def meta(chk, tier):
         "instants multiples of 1 ms in [1970, ~2103] (ties allowed), durations integer microseconds in [0, 24 h] (zero-length allowed), data {'tag': t} with t in 0..2",
         "one operation per run (inductive step over an arbitrary valid state); operations: " + ", ".join(OPS),
         "whole histories from the empty store: L = 2 (quick), 3 (thorough) operations out of insert, bulk insert of 2, replace, one-element upsert, replace_last, delete",
+        "sequences of 3 (thorough: 4; peewee 3) untargeted writes (insert, bulk insert of a one-element list, replace_last; peewee in the quick tier without the plain insert) on one store object from a bucket holding one symbolic event",
         "backends: memory, sqlite, peewee",
     ]
     chk.stubs = ["sqlite3 -> symex.sqlstub (SQL parsed from the text the source emits; validated against the real library by tools/dualrun.py: 0 divergences on the repository's own tests)",
